@@ -1687,8 +1687,11 @@ def _divisions_from_statistics(aggregated_stats, index_name):
     last_max = None
     minmax = []
     for file_stats in aggregated_stats:
-        file_min = file_stats["columns"][col_ix]["statistics"]["min"]
-        file_max = file_stats["columns"][col_ix]["statistics"]["max"]
+        file_min = file_stats["columns"][col_ix]["statistics"].get("min")
+        file_max = file_stats["columns"][col_ix]["statistics"].get("max")
+        if file_min is None or file_max is None:
+            # no statistics (e.g. a file without rows): divisions are unknown
+            return tuple([None] * (len(aggregated_stats) + 1)), None
 
         minmax.append((file_min, file_max))
     divisions = []
@@ -1746,6 +1749,9 @@ def _extract_stats(original):
             for name in col_meta:
                 col_out[name] = col[name]
             col_out["statistics"] = {}
+            if col["statistics"] is None:
+                # e.g. a row group without rows
+                continue
             for name in col_stats:
                 col_out["statistics"][name] = col["statistics"][name]
 
